@@ -1,1 +1,348 @@
-//! placeholder
+//! Family "codec" (property C17, Ob17.1): plonky2/src/util/serialization/mod.rs
+//! `Write for Vec<u8>` / `Read for Buffer`: for each primitive pair, `write_X(v)` followed by
+//! `read_X()` returns `v` and consumes exactly the bytes written - for all values `v`
+//! (container lengths concrete, contents symbolic).
+use plonky2::field::extension::quadratic::QuadraticExtension;
+use plonky2::field::extension::FieldExtension;
+use plonky2::field::goldilocks_field::GoldilocksField as F;
+use plonky2::fri::reduction_strategies::FriReductionStrategy;
+use plonky2::fri::{FriConfig, FriParams};
+use plonky2::hash::hash_types::HashOut;
+use plonky2::hash::merkle_tree::MerkleCap;
+use plonky2::hash::poseidon::PoseidonHash;
+use plonky2::iop::ext_target::ExtensionTarget;
+use plonky2::iop::target::{BoolTarget, Target};
+use plonky2::plonk::circuit_data::CircuitConfig;
+use plonky2::util::serialization::{Buffer, Read, Write};
+
+const P: u64 = 0xFFFF_FFFF_0000_0001;
+/// Output buffers are pre-allocated: growing a `Vec<u8>` through `realloc` under CBMC is very
+/// expensive and is std's code, not plonky2's.  For the same reason every harness writes a byte
+/// string of *concrete* length (enum variants are fixed per harness, never symbolic).
+const CAP: usize = 160;
+
+fn any_wire() -> Target {
+    Target::wire(kani::any(), kani::any())
+}
+
+fn any_virtual() -> Target {
+    Target::VirtualTarget { index: kani::any() }
+}
+
+fn any_fri_config(reduction_strategy: FriReductionStrategy) -> FriConfig {
+    FriConfig {
+        rate_bits: kani::any(),
+        cap_height: kani::any(),
+        proof_of_work_bits: kani::any(),
+        reduction_strategy,
+        num_query_rounds: kani::any(),
+    }
+}
+
+/// `w` wrote `buf`; `b` (a reader over `buf`) must have consumed all of it.
+macro_rules! consumed_all {
+    ($buf:expr, $b:expr) => {
+        assert!($b.pos() == $buf.len(), "reader did not consume exactly the written bytes");
+    };
+}
+
+#[kani::proof]
+#[kani::unwind(10)]
+fn rt_bool_u8_u16_u32() {
+    let (x0, x1, x2, x3): (bool, u8, u16, u32) = (kani::any(), kani::any(), kani::any(), kani::any());
+    let mut buf: Vec<u8> = Vec::with_capacity(CAP);
+    buf.write_bool(x0).unwrap();
+    assert!(buf.len() == 1);
+    buf.write_u8(x1).unwrap();
+    assert!(buf.len() == 2);
+    buf.write_u16(x2).unwrap();
+    assert!(buf.len() == 4);
+    buf.write_u32(x3).unwrap();
+    assert!(buf.len() == 8);
+    let mut b = Buffer::new(&buf);
+    assert!(b.read_bool().unwrap() == x0);
+    assert!(b.pos() == 1);
+    assert!(b.read_u8().unwrap() == x1);
+    assert!(b.pos() == 2);
+    assert!(b.read_u16().unwrap() == x2);
+    assert!(b.pos() == 4);
+    assert!(b.read_u32().unwrap() == x3);
+    consumed_all!(buf, b);
+    kani::cover!(x0 && x3 == u32::MAX);
+}
+
+#[kani::proof]
+#[kani::unwind(10)]
+fn rt_usize() {
+    let x: usize = kani::any();
+    let mut buf: Vec<u8> = Vec::with_capacity(CAP);
+    buf.write_usize(x).unwrap();
+    assert!(buf.len() == 8);
+    let mut b = Buffer::new(&buf);
+    assert!(b.read_usize().unwrap() == x);
+    consumed_all!(buf, b);
+    kani::cover!(x > u32::MAX as usize, "a value that does not fit 32 bits");
+}
+
+macro_rules! rt_usize_vec {
+    ($name:ident, $len:literal) => {
+        #[kani::proof]
+        #[kani::unwind(6)]
+        fn $name() {
+            let v: [usize; $len] = kani::any();
+            let mut buf: Vec<u8> = Vec::with_capacity(CAP);
+            buf.write_usize_vec(&v).unwrap();
+            assert!(buf.len() == 8 + 8 * $len);
+            let mut b = Buffer::new(&buf);
+            let r = b.read_usize_vec().unwrap();
+            assert!(r.len() == $len);
+            let i: usize = kani::any();
+            if i < $len {
+                assert!(r[i] == v[i]);
+            }
+            consumed_all!(buf, b);
+            kani::cover!(true);
+            core::mem::forget(r);
+        }
+    };
+}
+rt_usize_vec!(rt_usize_vec_len0, 0);
+rt_usize_vec!(rt_usize_vec_len1, 1);
+rt_usize_vec!(rt_usize_vec_len2, 2);
+
+/// Any representation in, the canonical one out (write_field canonicalises).
+#[kani::proof]
+#[kani::unwind(10)]
+#[kani::stub(plonky2_util::branch_hint, crate::noop)]
+fn rt_field() {
+    let x: u64 = kani::any();
+    let mut buf: Vec<u8> = Vec::with_capacity(CAP);
+    buf.write_field(F(x)).unwrap();
+    assert!(buf.len() == 8);
+    let mut b = Buffer::new(&buf);
+    let r: F = b.read_field().unwrap();
+    assert!(r == F(x));
+    assert!(r.0 == if x >= P { x - P } else { x }, "decoded limb is the canonical value");
+    consumed_all!(buf, b);
+    kani::cover!(x >= P, "non-canonical input representation");
+}
+
+#[kani::proof]
+#[kani::unwind(10)]
+#[kani::stub(plonky2_util::branch_hint, crate::noop)]
+fn rt_field_ext2() {
+    let (x0, x1): (u64, u64) = (kani::any(), kani::any());
+    let x = QuadraticExtension::<F>::from_basefield_array([F(x0), F(x1)]);
+    let mut buf: Vec<u8> = Vec::with_capacity(CAP);
+    buf.write_field_ext::<F, 2>(x).unwrap();
+    assert!(buf.len() == 16);
+    let mut b = Buffer::new(&buf);
+    let r = b.read_field_ext::<F, 2>().unwrap();
+    assert!(r == x);
+    consumed_all!(buf, b);
+    kani::cover!(x0 >= P && x1 == 0);
+}
+
+macro_rules! rt_target {
+    ($name:ident, $mk:expr, $bytes:literal) => {
+        #[kani::proof]
+        #[kani::unwind(10)]
+        fn $name() {
+            let t: Target = $mk;
+            let mut buf: Vec<u8> = Vec::with_capacity(CAP);
+            buf.write_target(t).unwrap();
+            assert!(buf.len() == $bytes);
+            let mut b = Buffer::new(&buf);
+            assert!(b.read_target().unwrap() == t);
+            consumed_all!(buf, b);
+            kani::cover!(true);
+        }
+    };
+}
+rt_target!(rt_target_wire, any_wire(), 17);
+rt_target!(rt_target_virtual, any_virtual(), 9);
+
+#[kani::proof]
+#[kani::unwind(10)]
+fn rt_target_bool_and_ext() {
+    let t = BoolTarget::new_unsafe(any_wire());
+    let e = ExtensionTarget::<2>([any_virtual(), any_wire()]);
+    let mut buf: Vec<u8> = Vec::with_capacity(CAP);
+    buf.write_target_bool(t).unwrap();
+    buf.write_target_ext::<2>(e).unwrap();
+    assert!(buf.len() == 17 + 9 + 17);
+    let mut b = Buffer::new(&buf);
+    assert!(b.read_target_bool().unwrap() == t);
+    assert!(b.read_target_ext::<2>().unwrap() == e);
+    consumed_all!(buf, b);
+    kani::cover!(true);
+}
+
+// write_target_vec / read_target_vec (len 0 and 2) are NOT covered: the reader's
+// `(0..length).map(..).collect::<Result<Vec<_>, _>>()` did not finish within 200 s under CBMC.
+
+fn any_hash() -> HashOut<F> {
+    let e: [u64; 4] = kani::any();
+    HashOut { elements: [F(e[0]), F(e[1]), F(e[2]), F(e[3])] }
+}
+
+/// HashOut <-> 32 bytes (to_bytes: 32-iteration flat_map; from_bytes: 4 chunks).
+#[kani::proof]
+#[kani::unwind(36)]
+#[kani::stub(plonky2_util::branch_hint, crate::noop)]
+fn rt_hash() {
+    let h = any_hash();
+    let mut buf: Vec<u8> = Vec::with_capacity(CAP);
+    buf.write_hash::<F, PoseidonHash>(h).unwrap();
+    assert!(buf.len() == 32);
+    let mut b = Buffer::new(&buf);
+    let r = b.read_hash::<F, PoseidonHash>().unwrap();
+    let i: usize = kani::any();
+    if i < 4 {
+        assert!(r.elements[i] == h.elements[i]);
+        assert!(r.elements[i].0 < P, "decoded limbs are canonical");
+    }
+    consumed_all!(buf, b);
+    kani::cover!(h.elements[3].0 >= P);
+}
+
+macro_rules! rt_merkle_cap {
+    ($name:ident, $h:literal, $n:literal) => {
+        #[kani::proof]
+        #[kani::unwind(36)]
+        #[kani::stub(plonky2_util::branch_hint, crate::noop)]
+        fn $name() {
+            let mut v = Vec::with_capacity($n);
+            let mut j = 0;
+            while j < $n {
+                v.push(any_hash());
+                j += 1;
+            }
+            let cap = MerkleCap::<F, PoseidonHash>(v);
+            let mut buf: Vec<u8> = Vec::with_capacity(CAP);
+            buf.write_merkle_cap(&cap).unwrap();
+            assert!(buf.len() == 32 * $n);
+            let mut b = Buffer::new(&buf);
+            let r = b.read_merkle_cap::<F, PoseidonHash>($h).unwrap();
+            assert!(r.0.len() == $n);
+            let (i, k): (usize, usize) = (kani::any(), kani::any());
+            if i < $n && k < 4 {
+                assert!(r.0[i].elements[k] == cap.0[i].elements[k]);
+            }
+            consumed_all!(buf, b);
+            kani::cover!(true);
+            core::mem::forget((r, cap));
+        }
+    };
+}
+rt_merkle_cap!(rt_merkle_cap_h0, 0, 1);
+
+macro_rules! rt_strategy {
+    ($name:ident, $mk:expr, $bytes:literal) => {
+        #[kani::proof]
+        #[kani::unwind(10)]
+        fn $name() {
+            let s: FriReductionStrategy = $mk;
+            let mut buf: Vec<u8> = Vec::with_capacity(CAP);
+            buf.write_fri_reduction_strategy(&s).unwrap();
+            assert!(buf.len() == $bytes);
+            let mut b = Buffer::new(&buf);
+            let r = b.read_fri_reduction_strategy().unwrap();
+            assert!(r == s);
+            consumed_all!(buf, b);
+            kani::cover!(true);
+        }
+    };
+}
+rt_strategy!(rt_fri_reduction_strategy_constant, FriReductionStrategy::ConstantArityBits(kani::any(), kani::any()), 17);
+rt_strategy!(rt_fri_reduction_strategy_minsize_none, FriReductionStrategy::MinSize(None), 2);
+rt_strategy!(rt_fri_reduction_strategy_minsize_some, FriReductionStrategy::MinSize(Some(kani::any())), 10);
+
+#[kani::proof]
+#[kani::unwind(6)]
+fn rt_fri_reduction_strategy_fixed2() {
+    let v: [usize; 2] = kani::any();
+    let s = FriReductionStrategy::Fixed(v.to_vec());
+    let mut buf: Vec<u8> = Vec::with_capacity(CAP);
+    buf.write_fri_reduction_strategy(&s).unwrap();
+    assert!(buf.len() == 1 + 8 + 16);
+    let mut b = Buffer::new(&buf);
+    let r = b.read_fri_reduction_strategy().unwrap();
+    match &r {
+        FriReductionStrategy::Fixed(w) => assert!(w.len() == 2 && w[0] == v[0] && w[1] == v[1]),
+        _ => assert!(false, "variant changed"),
+    }
+    consumed_all!(buf, b);
+    kani::cover!(true);
+    core::mem::forget((r, s));
+}
+
+fn same_fri_config(a: &FriConfig, b: &FriConfig) -> bool {
+    a.rate_bits == b.rate_bits
+        && a.cap_height == b.cap_height
+        && a.proof_of_work_bits == b.proof_of_work_bits
+        && a.num_query_rounds == b.num_query_rounds
+        && a.reduction_strategy == b.reduction_strategy
+}
+
+#[kani::proof]
+#[kani::unwind(10)]
+fn rt_fri_config() {
+    let c = any_fri_config(FriReductionStrategy::ConstantArityBits(kani::any(), kani::any()));
+    let mut buf: Vec<u8> = Vec::with_capacity(CAP);
+    buf.write_fri_config(&c).unwrap();
+    let mut b = Buffer::new(&buf);
+    let r = b.read_fri_config().unwrap();
+    assert!(same_fri_config(&r, &c));
+    consumed_all!(buf, b);
+    kani::cover!(c.proof_of_work_bits == 16 && c.rate_bits == 3);
+}
+
+#[kani::proof]
+#[kani::unwind(6)]
+fn rt_fri_params() {
+    let v: [usize; 2] = kani::any();
+    let p = FriParams {
+        config: any_fri_config(FriReductionStrategy::MinSize(Some(kani::any()))),
+        hiding: kani::any(),
+        degree_bits: kani::any(),
+        reduction_arity_bits: v.to_vec(),
+    };
+    let mut buf: Vec<u8> = Vec::with_capacity(CAP);
+    buf.write_fri_params(&p).unwrap();
+    let mut b = Buffer::new(&buf);
+    let r = b.read_fri_params().unwrap();
+    assert!(same_fri_config(&r.config, &p.config));
+    assert!(r.hiding == p.hiding && r.degree_bits == p.degree_bits);
+    assert!(r.reduction_arity_bits.len() == 2 && r.reduction_arity_bits[0] == v[0] && r.reduction_arity_bits[1] == v[1]);
+    consumed_all!(buf, b);
+    kani::cover!(p.hiding);
+    core::mem::forget((r, p));
+}
+
+#[kani::proof]
+#[kani::unwind(10)]
+fn rt_circuit_config() {
+    let c = CircuitConfig {
+        num_wires: kani::any(),
+        num_routed_wires: kani::any(),
+        num_constants: kani::any(),
+        use_base_arithmetic_gate: kani::any(),
+        security_bits: kani::any(),
+        num_challenges: kani::any(),
+        zero_knowledge: kani::any(),
+        max_quotient_degree_factor: kani::any(),
+        fri_config: any_fri_config(FriReductionStrategy::ConstantArityBits(kani::any(), kani::any())),
+    };
+    let mut buf: Vec<u8> = Vec::with_capacity(CAP);
+    buf.write_circuit_config(&c).unwrap();
+    let mut b = Buffer::new(&buf);
+    let r = b.read_circuit_config().unwrap();
+    assert!(r.num_wires == c.num_wires && r.num_routed_wires == c.num_routed_wires);
+    assert!(r.num_constants == c.num_constants && r.security_bits == c.security_bits);
+    assert!(r.num_challenges == c.num_challenges && r.max_quotient_degree_factor == c.max_quotient_degree_factor);
+    assert!(r.use_base_arithmetic_gate == c.use_base_arithmetic_gate && r.zero_knowledge == c.zero_knowledge);
+    assert!(same_fri_config(&r.fri_config, &c.fri_config));
+    consumed_all!(buf, b);
+    kani::cover!(c.zero_knowledge && !c.use_base_arithmetic_gate);
+}
